@@ -114,11 +114,12 @@ func (c06) Run(input any) kit.Case {
 	if in.Running {
 		tr.Status.Conditions = append(tr.Status.Conditions, trialsv1beta1.TrialCondition{Type: trialsv1beta1.TrialRunning, Status: corev1.ConditionTrue})
 	}
+	// what the model is given is decided on a copy of the job taken before the call
+	doc, _ := util.ConvertUnstructuredToString(job.DeepCopy())
+	fail, succ := matched(doc, in.Fail), matched(doc, in.Succ)
 	var res *trialutil.TrialJobStatus
 	var err error
 	pan := kit.Recover(func() { res, err = trialutil.GetDeployedJobStatus(tr, job) })
-	doc, _ := util.ConvertUnstructuredToString(job)
-	fail, succ := matched(doc, in.Fail), matched(doc, in.Succ)
 	var c kit.Case
 	c.Input = in
 	impl := "JVNone"
